@@ -412,26 +412,59 @@ def _shape(it: dict, m: dict) -> dict:
             "dur": it["dur"] > 0}
 
 
+class _Rec:
+    """Stand-in for Ctx inside the simulation subprocess: collects what the oracle reports."""
+
+    def __init__(self) -> None:
+        self.hist: dict[str, dict[str, int]] = {}
+        self.fails: list[dict] = []
+
+    def count(self, group: str, tag: Any, n: int = 1) -> None:
+        g = self.hist.setdefault(group, {})
+        g[str(tag)] = g.get(str(tag), 0) + n
+
+    def oracle_fail(self, what: str, replay: Any, signature: dict | None = None) -> None:
+        if len(self.fails) < 20:
+            self.fails.append({"what": what, "replay": replay, "signature": signature})
+
+
+def digest(sc: dict, tr: dict, tie: bool = True) -> dict:
+    """Runs in the simulation subprocess: sanity, oracle, abstraction of one trace (keeps the parent light)."""
+    if tr.get("sim_error"):
+        return {"error": f"simulation error: {tr['sim_error']}"}
+    try:
+        _sanity(sc, tr)
+    except RuntimeError as e:
+        return {"error": str(e)}
+    rec = _Rec()
+    oracle(rec, sc, tr)  # type: ignore[arg-type]
+    c7 = sc["c07"]
+    rec.count("T", sc["settings"]["persistence.consistency_timeout"])
+    rec.count("echo_class", c7.get("echo_class", "corpus"))
+    rec.count("foreign_class", c7.get("foreign_class", "corpus"))
+    rec.count("latency_ticks", c7["latency"])
+    rec.count("resp_latency_ticks", c7["resp_latency"])
+    rec.count("foreign_edits", sum(1 for m in tr["marks"] if m.get("what") == "op" and m["op"][0] == "edit"))
+    runs = abstract(sc, tr) if tie else []
+    return {"hist": rec.hist, "fails": rec.fails, "runs": runs}
+
+
 def evaluate(ctx: Ctx, scenarios: list[dict], results: list[dict], tie: bool = True) -> None:
     batch: list[tuple[dict, dict]] = []
     for sc, res in zip(scenarios, results):
-        if "trace" not in res:
+        if "digest" not in res:
             raise RuntimeError(f"simulation failed: {str(res)[:3000]}")
-        tr = res["trace"]
-        if tr.get("sim_error"):
-            raise RuntimeError(f"simulation error: {tr['sim_error']}")
+        dg = res["digest"]
+        if dg.get("error"):
+            raise RuntimeError(dg["error"])
         ctx.traces += 1
-        _sanity(sc, tr)
-        oracle(ctx, sc, tr)
-        c7 = sc["c07"]
-        ctx.count("T", sc["settings"]["persistence.consistency_timeout"])
-        ctx.count("echo_class", c7.get("echo_class", "corpus"))
-        ctx.count("foreign_class", c7.get("foreign_class", "corpus"))
-        ctx.count("latency_ticks", c7["latency"])
-        ctx.count("resp_latency_ticks", c7["resp_latency"])
-        ctx.count("foreign_edits", sum(1 for m in tr["marks"] if m.get("what") == "op" and m["op"][0] == "edit"))
+        for g, tags in dg["hist"].items():
+            for tag, n in tags.items():
+                ctx.count(g, tag, n)
+        for f in dg["fails"]:
+            ctx.oracle_fail(f["what"], f["replay"], f["signature"])
         if tie:
-            for run in abstract(sc, tr):
+            for run in dg["runs"]:
                 batch.append((sc, run))
     if not tie or not batch:
         return
@@ -499,7 +532,7 @@ def run(ctx: Ctx) -> None:
     chunk = 2500
     for k in range(0, len(scenarios), chunk):
         part = scenarios[k:k + chunk]
-        evaluate(ctx, part, sim_c07.run_many(part, wall=40.0))
+        evaluate(ctx, part, sim_c07.run_many(part, wall=40.0, tie=True))
     ctx.count("scenarios", "run", len(scenarios))
 
 
@@ -515,7 +548,7 @@ def search(ctx: Ctx, broken: list) -> None:
     chunk = 500
     for k in range(0, len(scenarios), chunk):
         part = scenarios[k:k + chunk]
-        evaluate(ctx, part, sim_c07.run_many(part, wall=40.0), tie=False)
+        evaluate(ctx, part, sim_c07.run_many(part, wall=40.0, tie=False), tie=False)
         if any(f.kind == "oracle" for f in ctx.failures):
             return
 
@@ -525,7 +558,7 @@ def replay(ctx: Ctx, data: dict) -> None:
     sc = rep.get("scenario") or (rep.get("input") or {}).get("scenario")
     if sc is None:
         raise RuntimeError("no scenario in the replay file")
-    evaluate(ctx, [sc], sim_c07.run_many([sc], wall=40.0), tie=True)
+    evaluate(ctx, [sc], sim_c07.run_many([sc], wall=40.0, tie=True), tie=True)
     for f in ctx.failures:
         print(f"{f.kind}: {f.what}")
     _ = json
